@@ -23,6 +23,8 @@
 #include <vector>
 #include <algorithm>
 #include <cfloat>
+#include <functional>
+#include <GeographicLib/Geodesic.hpp>
 
 using namespace GeographicLib;
 using mc::Ctx; using mc::fx; using mc::fmt; using mc::fmti;
@@ -609,6 +611,167 @@ int main(int argc, char** argv) {
         if (!T && !(generic_e || generic_n || diag)) continue;
         one(true, E[i], N[j]);
         if (j < V.size() && (T || generic_e)) one(false, E[i], 1e7 - N[j]);
+      }
+    }
+    // ---- alternate-zone state and re-use of an object
+    {
+      ctx.bound("geocoords.alt_state", "every lat/lon lattice position via Reset(lat,lon) and via its Geo / DMS / UTMUPS / MGRS strings; zone-31 (and 18, 60) UTM coordinates via Reset(zone,northp,x,y) and via zone-first / zone-last strings with northings v, -v (north), 10^7-v, 10^7+v, 10^7 (south), v in the threshold lattice + {10^6, 2.5x10^6}: (1) untouched alternate state equals the main state (accessors bitwise, Alt*Representation == *Representation at prec {-5,-2,0,3,9} x abbrev x hemisphere override, MGRS -6..6); (2) SetAltZone(z), z in {MATCH, STANDARD, UTM, zone-1, zone+1}: AltZone as documented, Alt accessors equal UTMUPS::Forward into that zone, Alt strings re-parse to the same position within half a unit of the last digit; (3) Reset on an object that held one of 4 other states (with alternate zone set) equals a freshly constructed object in every accessor and representation");
+      ctx.note("geocoords.alt_state: UTMUPS::StandardZone / Forward (property C04) are the reference for the alternate zone and its coordinates");
+      typedef std::function<void(GeoCoords&)> Maker;
+      auto str_of = [&](const std::function<std::string()>& f) { Dec d; std::string r; guard(d, [&] { r = f(); }); return d.oc == 0 ? r : "<threw " + fmti(d.oc) + ": " + d.what + ">"; };
+      struct Snap { double v[10]; bool northp; int zone, azone; std::vector<std::string> reps; };
+      auto snap = [&](const GeoCoords& g) {
+        Snap q; double vv[10] = {g.Latitude(), g.Longitude(), g.Easting(), g.Northing(), g.Convergence(), g.Scale(), g.AltEasting(), g.AltNorthing(), g.AltConvergence(), g.AltScale()};
+        memcpy(q.v, vv, sizeof vv); q.northp = g.Northp(); q.zone = g.Zone(); q.azone = g.AltZone();
+        q.reps = {str_of([&] { return g.GeoRepresentation(3); }), str_of([&] { return g.DMSRepresentation(1, true, ':'); }), str_of([&] { return g.UTMUPSRepresentation(3, true); }),
+                  str_of([&] { return g.UTMUPSRepresentation(true, -2, false); }), str_of([&] { return g.UTMUPSRepresentation(false, 0, true); }), str_of([&] { return g.MGRSRepresentation(0); }),
+                  str_of([&] { return g.AltUTMUPSRepresentation(3, true); }), str_of([&] { return g.AltUTMUPSRepresentation(true, -2, false); }), str_of([&] { return g.AltUTMUPSRepresentation(false, 0, true); }),
+                  str_of([&] { return g.AltMGRSRepresentation(0); }), str_of([&] { return g.AltMGRSRepresentation(-6); })};
+        return q;
+      };
+      auto snap_diff = [&](const Snap& a, const Snap& b) -> std::string {
+        static const char* nm[10] = {"Latitude", "Longitude", "Easting", "Northing", "Convergence", "Scale", "AltEasting", "AltNorthing", "AltConvergence", "AltScale"};
+        for (int i = 0; i < 10; ++i) if (!mc::same_bits(a.v[i], b.v[i]) && !(std::isnan(a.v[i]) && std::isnan(b.v[i]))) return std::string(nm[i]) + " " + fx(a.v[i]) + " vs " + fx(b.v[i]);
+        if (a.northp != b.northp) return "Northp"; if (a.zone != b.zone) return "Zone " + fmti(a.zone) + " vs " + fmti(b.zone); if (a.azone != b.azone) return "AltZone " + fmti(a.azone) + " vs " + fmti(b.azone);
+        for (size_t i = 0; i < a.reps.size(); ++i) if (a.reps[i] != b.reps[i]) return "representation " + fmti((long long)i) + " '" + a.reps[i] + "' vs '" + b.reps[i] + "'";
+        return "";
+      };
+      // states an object may have held before
+      std::vector<Maker> firsts = {
+        [](GeoCoords&) {},
+        [](GeoCoords& g) { g.Reset("n 2000000 2100000"); },
+        [](GeoCoords& g) { g.Reset("31n 700000 -1000000"); g.SetAltZone(32); },
+        [](GeoCoords& g) { g.Reset(33.44, 43.27); g.SetAltZone(37); },
+        [](GeoCoords& g) { g.Reset(60, false, 200000, 11000000); g.SetAltZone(59); },
+      };
+      for (auto& f : firsts) { try { GeoCoords g; f(g); } catch (const std::exception& e) { fprintf(stderr, "C10: alt-state prior state is not constructible: %s\n", e.what()); return 2; } }
+      auto metres_apart = [&](double lat1, double lon1, double lat2, double lon2) { double s12; Geodesic::WGS84().Inverse(lat1, lon1, lat2, lon2, s12); return s12; };
+      // all checks for one way of setting an object
+      auto check_obj = [&](const std::string& desc, const Maker& make) {
+        std::string cls = "other";
+        auto F = [&](const char* kind) { return mc::Fields{{"kind", kind}, {"object", desc}, {"input_class", cls}}; };
+        GeoCoords g;
+        { Dec d; guard(d, [&] { make(g); }); if (d.oc != 0) { Ctx::Case cs(ctx); ctx.sig(77); if (d.oc != 1) ctx.fail("alt " + desc, "Reset: foreign exception / crash: " + d.what, F("crash")); else ctx.count("alt_state_objects_rejected"); return; } }
+        // a point on the equator may be held in the southern hemisphere ("31s 700000 10000000" is legal input)
+        if (g.Latitude() == 0 && !g.Northp() && g.Zone() != 0) cls = "equator-held-in-south";
+        const Snap s0 = snap(g);
+        // (1) untouched alternate state == main state
+        {
+          Ctx::Case cs(ctx);
+          std::string key = "alt " + desc + " fresh";
+          if (g.AltZone() != g.Zone() || !mc::same_bits(g.AltEasting(), g.Easting()) || !mc::same_bits(g.AltNorthing(), g.Northing()) || !mc::same_bits(g.AltConvergence(), g.Convergence()) || !mc::same_bits(g.AltScale(), g.Scale()))
+            ctx.fail(key, "without SetAltZone the alternate state (zone " + fmti(g.AltZone()) + ", " + fx(g.AltEasting()) + " " + fx(g.AltNorthing()) + ") differs from the main state (zone " + fmti(g.Zone()) + ", " + fx(g.Easting()) + " " + fx(g.Northing()) + ")", F("alt-fresh"));
+          for (int prec : {-5, -2, 0, 3, 9}) for (int ab = 0; ab < 2; ++ab) for (int ov = 0; ov < 3; ++ov) {
+            std::string a = str_of([&] { return ov == 0 ? g.AltUTMUPSRepresentation(prec, ab != 0) : g.AltUTMUPSRepresentation(ov == 1, prec, ab != 0); });
+            std::string m = str_of([&] { return ov == 0 ? g.UTMUPSRepresentation(prec, ab != 0) : g.UTMUPSRepresentation(ov == 1, prec, ab != 0); });
+            if (a != m) { ctx.fail(key + "/utm", "AltUTMUPSRepresentation '" + a + "' differs from UTMUPSRepresentation '" + m + "' although no alternate zone was set", F("alt-fresh")); break; }
+          }
+          for (int prec = -6; prec <= 6; ++prec) {
+            std::string a = str_of([&] { return g.AltMGRSRepresentation(prec); }), m = str_of([&] { return g.MGRSRepresentation(prec); });
+            if (a != m) { ctx.fail(key + "/mgrs", "AltMGRSRepresentation '" + a + "' differs from MGRSRepresentation '" + m + "' although no alternate zone was set", F("alt-fresh")); break; }
+          }
+          // the main UTM string names the position the object holds
+          std::string u = str_of([&] { return g.UTMUPSRepresentation(6, true); });
+          GC r = gc_reset(u);
+          if (r.oc != 0) ctx.fail(key + "/own", "own representation '" + u + "' rejected: " + r.what, F("rep-rejected"));
+          else if (!(metres_apart(r.lat, r.lon, g.Latitude(), g.Longitude()) <= 2e-6)) ctx.fail(key + "/own", "'" + u + "' reads back " + fmt(metres_apart(r.lat, r.lon, g.Latitude(), g.Longitude())) + " m away", F("rep-value"));
+          if (ctx.want_sample()) ctx.sample(key + " " + u);
+        }
+        // (2) SetAltZone
+        std::vector<int> zs = {UTMUPS::MATCH, UTMUPS::STANDARD, UTMUPS::UTM};
+        if (g.Zone() >= 2) zs.push_back(g.Zone() - 1);
+        if (g.Zone() >= 1 && g.Zone() <= 59) zs.push_back(g.Zone() + 1);
+        for (int z : zs) {
+          Ctx::Case cs(ctx);
+          ctx.sig(uint64_t(z + 5));
+          GeoCoords h; make(h);
+          std::string key = "alt " + desc + " SetAltZone(" + fmti(z) + ")";
+          Dec d; guard(d, [&] { h.SetAltZone(z); });
+          // reference: the documented zone rule and the projection into that zone
+          int zr = -99; bool nr = false; double xr = 0, yr = 0, gr = 0, kr = 0; bool refthrows = false;
+          if (z != UTMUPS::MATCH) { try { UTMUPS::Forward(h.Latitude(), h.Longitude(), zr, nr, xr, yr, gr, kr, z); } catch (const GeographicErr&) { refthrows = true; } }
+          if (d.oc >= 2) { ctx.fail(key, "foreign exception / crash: " + d.what, F("crash")); continue; }
+          if (z != UTMUPS::MATCH && (d.oc == 1) != refthrows) { ctx.fail(key, std::string("SetAltZone ") + (d.oc ? "threw (" + d.what + ")" : "succeeded") + " but UTMUPS::Forward into that zone " + (refthrows ? "throws" : "succeeds"), F("alt-setzone")); continue; }
+          if (d.oc == 1) { ctx.count("alt_zone_not_usable"); continue; }
+          // main state untouched
+          { Snap s1 = snap(h); bool same = s1.zone == s0.zone && s1.northp == s0.northp; for (int i = 0; i < 6; ++i) same = same && mc::same_bits(s1.v[i], s0.v[i]); if (!same) ctx.fail(key + "/main", "SetAltZone changed the main state", F("alt-main")); }
+          if (z == UTMUPS::MATCH) { std::string df = snap_diff(snap(h), s0); if (!df.empty()) ctx.fail(key, "SetAltZone(MATCH) is documented to do nothing, but " + df, F("alt-match")); continue; }
+          if (h.AltZone() != zr) { ctx.fail(key, "AltZone() = " + fmti(h.AltZone()) + ", documented zone is " + fmti(zr), F("alt-zone")); continue; }
+          // hemisphere frame: the alternate coordinates are printed with the main hemisphere
+          double yexp = yr + ((zr != 0 && nr != h.Northp()) ? (h.Northp() ? -1e7 : 1e7) : 0);
+          if (zr == h.Zone()) {        // documented: the alternate representation is the input one
+            if (!mc::same_bits(h.AltEasting(), h.Easting()) || !mc::same_bits(h.AltNorthing(), h.Northing()) || !mc::same_bits(h.AltConvergence(), h.Convergence()) || !mc::same_bits(h.AltScale(), h.Scale()))
+              ctx.fail(key + "/coords", "alternate zone equals the main zone but the alternate coordinates " + fx(h.AltEasting()) + " " + fx(h.AltNorthing()) + " differ from the main ones", F("alt-coords"));
+          } else if (!mc::same_bits(h.AltEasting(), xr) || std::fabs(h.AltNorthing() - yexp) > 4 * EPS * 2e7 || !mc::same_bits(h.AltConvergence(), gr) || !mc::same_bits(h.AltScale(), kr)) {
+            ctx.fail(key + "/coords", "alternate coordinates " + fx(h.AltEasting()) + " " + fx(h.AltNorthing()) + " differ from the projection into zone " + fmti(zr) + ": " + fx(xr) + " " + fx(yexp) + " (hemisphere " + (h.Northp() ? "n" : "s") + ")", F("alt-coords"));
+            continue;                    // the strings below would only repeat this failure
+          }
+          for (int prec : {-5, -2, 0, 3, 6}) for (int ab = 0; ab < 2; ++ab) {
+            std::string a = str_of([&] { return h.AltUTMUPSRepresentation(prec, ab != 0); });
+            GC r = gc_reset(a);
+            double unit = std::pow(10.0, -prec);
+            if (r.oc != 0) {
+              // legitimate only if rounding left the legal area
+              bool legit = false;
+              try { GeoCoords g3(zr, h.Northp(), std::round(h.AltEasting() / unit) * unit, std::round(h.AltNorthing() / unit) * unit); (void)g3; } catch (const std::exception&) { legit = true; }
+              if (legit) ctx.count("utmups_rounded_out_of_domain"); else ctx.fail(key + "/utm" + fmti(prec), "alternate representation '" + a + "' rejected: " + r.what, F("alt-rep-rejected"));
+              continue;
+            }
+            double dist = metres_apart(r.lat, r.lon, h.Latitude(), h.Longitude()), tol = 0.5 * unit * 1.4143 / 0.99 + 2e-6;
+            if (r.zone != zr || !(dist <= tol)) ctx.fail(key + "/utm" + fmti(prec), "alternate representation '" + a + "' reads back in zone " + fmti(r.zone) + ", " + fmt(dist) + " m from the position (allowed " + fmt(tol) + ")", F("alt-rep-value"));
+          }
+          for (int prec : {-5, -3, 0, 2}) {
+            std::string a = str_of([&] { return h.AltMGRSRepresentation(prec); });
+            if (a.compare(0, 6, "<threw") == 0) { if (a.compare(0, 8, "<threw 1") == 0) ctx.count("alt_mgrs_outside_mgrs_area"); else ctx.fail(key + "/mgrs", "AltMGRSRepresentation: " + a, F("crash")); continue; }
+            GC r = gc_reset(a, false);
+            double unit = std::pow(10.0, -prec);
+            if (r.oc != 0) { ctx.fail(key + "/mgrs" + fmti(prec), "alternate MGRS '" + a + "' rejected: " + r.what, F("alt-rep-rejected")); continue; }
+            double rn = r.n + ((r.zone != 0 && r.northp != h.Northp()) ? (h.Northp() ? -1e7 : 1e7) : 0), slack = 4 * EPS * 2e7;
+            if (r.zone != zr || !(h.AltEasting() >= r.e - slack && h.AltEasting() < r.e + unit + slack && h.AltNorthing() >= rn - slack && h.AltNorthing() < rn + unit + slack))
+              ctx.fail(key + "/mgrs" + fmti(prec), "alternate MGRS '" + a + "' is the square at " + fx(r.e) + " " + fx(rn) + " in zone " + fmti(r.zone) + ", which does not contain " + fx(h.AltEasting()) + " " + fx(h.AltNorthing()) + " of zone " + fmti(zr), F("alt-rep-value"));
+          }
+        }
+        // (3) a Reset on a used object leaves no trace of the earlier state
+        for (size_t fi = 0; fi < firsts.size(); ++fi) {
+          Ctx::Case cs(ctx);
+          ctx.sig(100 + fi);
+          GeoCoords h; firsts[fi](h); make(h);
+          std::string df = snap_diff(snap(h), s0);
+          if (!df.empty()) ctx.fail("alt " + desc + " after state " + fmti((long long)fi), "an object that held another state differs from a fresh one after the same Reset: " + df, F("reset-trace"));
+        }
+      };
+      auto num = [](double v) { char b[64]; snprintf(b, sizeof b, "%.9f", v); return std::string(b); };
+      // lat/lon lattice
+      for (double lat : lats) {
+        if (!ctx.take()) continue;
+        for (double lon : lons) {
+          std::string pos = "(" + fmt(lat) + "," + fmt(lon) + ")";
+          check_obj("Reset" + pos, [=](GeoCoords& g) { g.Reset(lat, lon); });
+          GeoCoords g0; try { g0.Reset(lat, lon); } catch (const std::exception&) { continue; }
+          for (const std::string& rep : {g0.GeoRepresentation(9), g0.DMSRepresentation(2, true), g0.UTMUPSRepresentation(3, false), str_of([&] { return g0.MGRSRepresentation(1); })})
+            if (rep[0] != '<') check_obj("Reset('" + rep + "')", [=](GeoCoords& g) { g.Reset(rep); });
+        }
+      }
+      // UTM coordinates, including hemisphere letters that disagree with the northing (legal input: the reader fixes the hemisphere)
+      {
+        std::vector<double> V;
+        for (int p = 1; p <= 5; ++p) { double u = std::pow(10.0, p); for (double f : {0.4, 0.4999, 0.5, 0.5001, 0.999, 1.0, 1.4999, 1.5001}) V.push_back(f * u); }
+        V.push_back(1e6); V.push_back(2.5e6);
+        struct ZE { int zone; double e; };
+        std::vector<ZE> zes = {{31, 500000}, {18, 500000}, {31, 400000}, {60, 612345.678}};
+        if (T) { zes.push_back({1, 500000}); zes.push_back({31, 50010}); zes.push_back({32, 830000}); }
+        for (double v : V) {
+          if (!ctx.take()) continue;
+          for (const ZE& ze : zes) for (int hemi = 0; hemi < 2; ++hemi) for (double n : {v, -v, 1e7 - v, 1e7 + v, 1e7, 0.0}) {
+            if (!T && ze.zone != 31 && !(n == -v || n == 1e7 + v)) continue;          // quick: other zones only for the mismatched forms
+            if ((n == 1e7 || n == 0.0) && v != V[0]) continue;
+            bool northp = hemi == 0; int zone = ze.zone; double e = ze.e;
+            std::string zs = fmti(zone) + (northp ? "n" : "s"), coords = num(e) + " " + num(n);
+            check_obj("Reset(" + zs + "," + coords + ")", [=](GeoCoords& g) { g.Reset(zone, northp, e, n); });
+            check_obj("Reset('" + zs + " " + coords + "')", [=](GeoCoords& g) { g.Reset(zs + " " + coords); });
+            if (ze.zone == 31) check_obj("Reset('" + coords + " " + zs + "')", [=](GeoCoords& g) { g.Reset(coords + " " + zs); });
+          }
+        }
       }
     }
     // token-count dispatch
